@@ -305,13 +305,13 @@ pub fn fromstr_texts(d: &Decl, dom: &[Val], tier: Tier) -> Vec<String> {
             break;
         }
     }
-    let alpha: Vec<char> = "019-+.eE_ Nainf,".chars().collect();
+    let alpha: Vec<char> = "019-+.eE_ Nainf,\n\r\t".chars().collect();
     let l = if tier == Tier::Quick { 3 } else { 4 };
     for s in domain::strings_upto(&alpha, l) {
         out.insert(s);
     }
     for s in [
-        "+5", "-0", " 5", "5 ", "1e400", "1e-400", "-1e400", "infinity", "-infinity", "Infinity", "INF", "inf", "-inf", "+inf", "NaN", "nan", "-NaN", "+NaN", "٣", "１", "0x10", "0b1", "1_000", "", "340282366920938463463374607431768211455", "340282366920938463463374607431768211456",
+        "+5", "-0", " 5", "5 ", "5\n", "5\r\n", "5\r", "\n5", "5\t", "\n", "1.5\n", "NaN\n", "inf\r\n", "1,2\n", "5\u{a0}", "5\u{2028}", "5\u{0}", "\u{feff}5", "1e400", "1e-400", "-1e400", "infinity", "-infinity", "Infinity", "INF", "inf", "-inf", "+inf", "NaN", "nan", "-NaN", "+NaN", "٣", "１", "0x10", "0b1", "1_000", "", "340282366920938463463374607431768211455", "340282366920938463463374607431768211456",
         "-170141183460469231731687303715884105728", "-170141183460469231731687303715884105729", "170141183460469231731687303715884105727", "99999999999999999999999999999999999999999999", "1e39", "3.4028235e38", "3.4028236e38", "3.5e38", "1.7976931348623157e308", "1.8e308", "4.9e-324", "2e-324",
         "1e-46", "0.1", "-0.0", "+0.0", "00012", "-00012", "1.", ".5", "1e", "e1", "--1", "+-1", "1,2", "1,2,3", ",", "2147483647,-2147483648", "2147483648,0", "🦀", "1\u{0}", "\u{feff}1", "12.5", "12.500", "0.25", "0.2500000000000001", "256", "255", "-129", "-128", "128", "127", "65535", "65536", "32767", "32768", "-32768", "-32769",
     ] {
@@ -563,6 +563,25 @@ pub fn c16(cx: &Ctx) -> Report {
             }
             r.evaluations += 1;
         }
+        // (0) every single rejection: the relation stated by the reported text must be FALSE for the rejected
+        // value ("a value the rule admits is never described as forbidden")
+        for raw in &dom {
+            if let Outcome::Err { display, variant } = s.construct(raw) {
+                let Some((rel, btxt, is_len)) = message_relation(&display) else { continue };
+                let sv = refsem::sanitize(d, raw);
+                if sv.is_nan() {
+                    continue;
+                }
+                // the bound the text names, read back in the inner type
+                let bound: Option<Val> = vs.iter().filter_map(|v| v.bound()).map(|b| b.v.clone()).find(|bv| bound_debug_text(bv) == btxt);
+                let Some(bv) = bound else { continue };
+                let subject_val = if is_len { Val::U(refsem::char_count(sv.as_str())) } else { sv.clone() };
+                r.evaluations += 1;
+                if rel_holds(rel, &subject_val, &bv) {
+                    r.violate(mkviol("C16", i, d, "Display", raw.show(), format!("the reported rule ({rel:?} {btxt}) is violated by the value"), format!("{variant}: {display}"), &format!("wrong-text:{}:rule-not-violated", d.family_name())));
+                }
+            }
+        }
         for (vi, vd) in vs.iter().enumerate() {
             let Some(b) = vd.bound() else { continue };
             let Some((text, witness)) = texts.get(vd.variant()) else {
@@ -671,7 +690,7 @@ pub fn c16(cx: &Ctx) -> Report {
                 }
             }
             if d.derives(Tr::Deserialize) {
-                let int_ty = if let Inner::Int(t) = d.inner { Some(t) } else { None };
+                let int_ty = d.inner.int_ty();
                 let doc = DocVal::Newtype(s.type_name(), Box::new(docval_of(witness, int_ty)));
                 for fmt in ALL_FMT {
                     if let Ok(bytes) = encode(fmt, &doc) {
@@ -796,7 +815,7 @@ pub fn c11(cx: &Ctx) -> Report {
         }
         let mut visited: HashSet<Val> = HashSet::new();
         let mut frontier: Vec<(Val, u32, String)> = init.iter().map(|v| (v.clone(), 0u32, String::new())).collect();
-        let int_ty = if let Inner::Int(t) = d.inner { Some(t) } else { None };
+        let int_ty = d.inner.int_ty();
         let mut nonloop = 0u64;
         while let Some((v, depth, path)) = frontier.pop() {
             if !visited.insert(v.clone()) {
@@ -834,6 +853,7 @@ pub fn c11(cx: &Ctx) -> Report {
                         edges.push((match fmt {
                             Fmt::Json => "Serialize->Deserialize(json)",
                             Fmt::Ron => "Serialize->Deserialize(ron)",
+                            Fmt::RonNamed => "Serialize->Deserialize(ron with struct names)",
                             Fmt::MsgPack => "Serialize->Deserialize(msgpack)",
                         }, o));
                     }
@@ -878,6 +898,7 @@ pub fn c11(cx: &Ctx) -> Report {
 // C13
 
 pub fn hash_of_val(inner: Inner, v: &Val) -> Vec<Vec<u8>> {
+    let inner = if inner == Inner::GenT { Inner::Int(IntTy::I32) } else { inner };
     match (inner, v) {
         (Inner::Int(t), _) => match (t, v) {
             (IntTy::U8, Val::U(x)) => rec_hash(&(*x as u8)),
@@ -919,7 +940,7 @@ pub fn c13(cx: &Ctx) -> Report {
         let dom = domain::domain(d, tier);
         let cap = if tier == Tier::Quick { 48 } else { 160 };
         let vals = obtainable(d, &dom, cap);
-        let int_ty = if let Inner::Int(t) = d.inner { Some(t) } else { None };
+        let int_ty = d.inner.int_ty();
         // also raw inputs that differ from their stored value (case / whitespace before sanitisation)
         let mut raws: Vec<Val> = vals.clone();
         for raw in dom.iter() {
@@ -961,6 +982,20 @@ pub fn c13(cx: &Ctx) -> Report {
             chk("Clone", &w.clone_inner, r);
             if w.clone_eq == Some(false) && !stored.is_nan() {
                 r.violate(mkviol("C13", i, d, "Clone", raw.show(), "clone == self".into(), "false".into(), "clone-not-equal"));
+            }
+            // comparison with ITSELF (same object): must still be the inner value's answer (NaN != NaN)
+            if let Some(e) = w.eq_self {
+                r.transitions += 1;
+                let want = pcmp(&stored, &stored) == Some(std::cmp::Ordering::Equal);
+                if e != want {
+                    r.violate(mkviol("C13", i, d, "PartialEq (value compared with itself)", raw.show(), format!("{want}"), format!("{e}"), "eq-differs"));
+                }
+            }
+            if let Some(p) = w.partial_self {
+                r.transitions += 1;
+                if p != pcmp(&stored, &stored) {
+                    r.violate(mkviol("C13", i, d, "PartialOrd (value compared with itself)", raw.show(), format!("{:?}", pcmp(&stored, &stored)), format!("{p:?}"), "partial-cmp-differs"));
+                }
             }
             if w.ptr_same == Some(false) {
                 r.violate(mkviol("C13", i, d, "reference views", raw.show(), "all reference views alias the stored value".into(), "different addresses".into(), "view-not-aliasing"));
@@ -1091,7 +1126,7 @@ pub fn c10(cx: &Ctx) -> Report {
         let dom = domain::domain(d, tier);
         let cap = if tier == Tier::Quick { 400 } else { 4000 };
         let vals = obtainable(d, &dom, cap);
-        let int_ty = if let Inner::Int(t) = d.inner { Some(t) } else { None };
+        let int_ty = d.inner.int_ty();
         for v in &vals {
             if !refsem::valid_and_canonical(d, v) {
                 continue;
@@ -1113,7 +1148,7 @@ pub fn c10(cx: &Ctx) -> Report {
                 if Some(tb) != o.plain_bytes.as_ref() {
                     r.violate(mkviol("C10", i, d, &format!("serialize {fmt:?}"), v.show(), format!("same bytes as a plain serde newtype: {}", show(&o.plain_bytes)), show(&o.t_bytes), "not-a-newtype-struct"));
                 }
-                if fmt != Fmt::Ron && Some(tb) != o.inner_bytes.as_ref() {
+                if fmt != Fmt::Ron && fmt != Fmt::RonNamed && Some(tb) != o.inner_bytes.as_ref() {
                     r.violate(mkviol("C10", i, d, &format!("serialize {fmt:?}"), v.show(), format!("same bytes as the inner value: {}", show(&o.inner_bytes)), show(&o.t_bytes), "not-transparent"));
                 }
                 // the wrapped document decodes, via the plain newtype, to the same inner value
@@ -1157,7 +1192,7 @@ pub fn c10(cx: &Ctx) -> Report {
 
 /// element documents for a subject: (description, element DocVal)
 pub fn element_docs(d: &Decl, name: &'static str, vals: &[Val]) -> Vec<(String, DocVal)> {
-    let int_ty = if let Inner::Int(t) = d.inner { Some(t) } else { None };
+    let int_ty = d.inner.int_ty();
     let mut out: Vec<(String, DocVal)> = vec![];
     for v in vals {
         let e = docval_of(v, int_ty);
@@ -1222,6 +1257,7 @@ pub fn raw_docs(fmt: Fmt) -> Vec<Vec<u8>> {
             .iter()
             .map(|s| s.as_bytes().to_vec())
             .collect(),
+        Fmt::RonNamed => vec![],
         Fmt::Ron => ["5", "(5)", "X(5)", "Nt0(5)", "inf", "-inf", "NaN", "(NaN)", "(inf)", "(-inf)", "(1e400)", "(1.0)", "(\"a\")", "(\" A \")", "((5))", "(5,)", "()", "(5, 6)", "Some(5)", "(Some(5))", "[5]", "([1,2])", "((x:1,y:2))", "(Point(x:1,y:2))", "(-0.0)", "(0x10)", "(1_000)", "(256)", "(-1)", "('a')", "(true)", "(\"\\u{df}\")"]
             .iter()
             .map(|s| s.as_bytes().to_vec())
@@ -1402,9 +1438,10 @@ pub fn c04(cx: &Ctx) -> Report {
         // newtype's visitor accepts must be exactly what the constructor makes of that payload
         {
             use crate::serde_h::{probe_payload, ProbeCall};
-            let int_ty = if let Inner::Int(t) = d.inner { Some(t) } else { None };
+            let int_ty = d.inner.int_ty();
             let mut n_probe = 0u64;
             let mut n_probe_ok = 0u64;
+            crate::serde_h::PROBE_EXPECT_NAME.with(|c| c.set(Some(s.type_name())));
             for raw in &vals {
                 let base = probe_payload(raw, int_ty);
                 let mut calls: Vec<(String, ProbeCall, bool)> = vec![
@@ -1464,6 +1501,7 @@ pub fn c04(cx: &Ctx) -> Report {
                     }
                 }
             }
+            crate::serde_h::PROBE_EXPECT_NAME.with(|c| c.set(None));
             r.hist("adversarial-visitor-calls", n_probe);
             r.hist("adversarial-visitor-calls-accepted", n_probe_ok);
         }
